@@ -11,7 +11,7 @@
     the entry limit. *)
 From Coq Require Import ZArith NArith List Bool String.
 From AGH Require Import Base.Run Model.QLogFile Model.QLog Model.QLogCodec Proofs.QLog Proofs.QLogCursor Proofs.QLogCodec
-  Proofs.QLogCodecScan Proofs.QLogCodecDec Proofs.QLogCodecLoc.
+  Proofs.QLogCodecScan Proofs.QLogCodecDec Proofs.QLogCodecLoc Proofs.QLogFold.
 Import ListNotations.
 Local Open Scope Z_scope.
 
@@ -121,6 +121,37 @@ Theorem C07_filters_exact : forall me bf s p,
   exists o, search me bf s p = Ok (vis s p) o.
 Proof. exact search_all. Qed.
 Print Assumptions C07_filters_exact.
+
+(** Which case folding [term_match] (hence [keep], [vis]) stands for.
+    Quoted terms: [equal_fold] = strings.EqualFold restricted to ASCII letters
+    plus U+212A (Kelvin sign) ~ k and U+017F (long s) ~ s, the only non-ASCII
+    code points whose simple fold is an ASCII letter; on ASCII operands it is
+    plain ASCII folding.  Unquoted terms: [contains_fold] = some window of
+    the value, of the term's byte length, equals the term after ASCII folding
+    (searchcriterion.go containsFold since f792c49: strings.EqualFold on every
+    window that starts at a rune).  Both coincide with the Go functions
+    whenever the term is ASCII, whatever bytes the value holds; for non-ASCII
+    terms only on well-formed UTF-8 whose other runes fold to themselves. *)
+Theorem C07_equal_fold_ascii : forall a b, ascii_only a = true -> ascii_only b = true ->
+  equal_fold a b = eqb_bytes (fold_case a) (fold_case b).
+Proof. exact equal_fold_ascii. Qed.
+Print Assumptions C07_equal_fold_ascii.
+
+Theorem C07_contains_fold_windows : forall s sub,
+  contains_fold s sub = true <-> exists a w b, s = (a ++ w ++ b)%list /\ fold_case w = fold_case sub.
+Proof. exact contains_fold_windows. Qed.
+Print Assumptions C07_contains_fold_windows.
+
+Example C07_fold_examples :
+  let kelvin9_set := [226; 132; 170; 57; 32; 197; 191; 101; 116]%N in
+  let k9_set := [107; 57; 32; 115; 101; 116]%N in
+  equal_fold kelvin9_set k9_set = true /\
+  equal_fold kelvin9_set [75; 57; 32; 83; 69; 84]%N = true /\
+  contains_fold kelvin9_set [107; 57]%N = false /\
+  contains_fold kelvin9_set [57; 32; 197; 191]%N = true /\
+  contains_fold [77; 121; 32; 75; 105; 116; 99; 104; 101; 110]%N [107; 105; 116; 99; 104; 101; 110]%N = true.
+Proof. exact fold_examples. Qed.
+Print Assumptions C07_fold_examples.
 
 Theorem C07_visible_iff : forall s p e,
   In e (vis s p) <-> In e (flatv s) /\ keep (cfg s) p e = true.
